@@ -109,12 +109,28 @@ def _run(case, rng, name, files, ok, expect, sub, opts, d):
     src_dir = os.path.join(d, "w")
     os.makedirs(src_dir)
     paths = []
+    fifos = []
     for p, s in files:
         if p.startswith(("core:", "vendor:")):
             paths.append(p)         # an embedded library named on the command line, not a file of the working directory
             continue
         full = os.path.join(src_dir, p)
         os.makedirs(os.path.dirname(full), exist_ok=True)
+        if opts.get("fifo"):
+            # the source arrives through a named pipe (as with `<(...)` or /dev/stdin): readable once, not a regular file
+            import threading
+            os.mkfifo(full)
+
+            def feed(path=full, text=s):
+                try:
+                    with open(path, "w", encoding="utf-8") as f:
+                        f.write(text)
+                except OSError:
+                    pass
+            threading.Thread(target=feed, daemon=True).start()
+            fifos.append(full)
+            paths.append(p)
+            continue
         with open(full, "w", encoding="utf-8") as f:
             f.write(s)
         paths.append(p)
@@ -175,6 +191,12 @@ def _run(case, rng, name, files, ok, expect, sub, opts, d):
         p = subprocess.run(args, cwd=src_dir, env=env, stdout=subprocess.PIPE, stderr=subprocess.PIPE, timeout=120)
     except subprocess.TimeoutExpired:
         return {"verdict": INCONCLUSIVE, "detail": "penne did not finish within 120 s"}
+    finally:
+        for fp in fifos:        # release a feeder whose pipe was never opened
+            try:
+                os.close(os.open(fp, os.O_RDONLY | os.O_NONBLOCK))
+            except OSError:
+                pass
     out = p.stdout.decode("utf-8", "replace")
     err = p.stderr.decode("utf-8", "replace")
     both = out + err
@@ -339,6 +361,14 @@ def cases(tier, seed):
                 if silent:
                     opts["silent"] = True
                 out.append({"seed": seed, "i": i, "input": "valid_multi", "sub": sub, "opts": opts})
+                i += 1
+    # sources that are not regular files (named pipes): every valid input x subcommand, with and without an explicit backend
+    for name, (files_, ok, _exp) in INPUTS.items():
+        if not ok or any(p.startswith(("core:", "vendor:")) for p, _s in files_) or name == "missing_file":
+            continue
+        for sub in ("build", "implicit", "run", "emit"):
+            for opts in ({"fifo": True}, {"fifo": True, "flag": True}, {"fifo": True, "out_dir": True}, {"fifo": True, "backend_status": 3}):
+                out.append({"seed": seed, "i": i, "input": name, "sub": sub, "opts": dict(opts)})
                 i += 1
     # every failing input with the rendering options (each diagnostic kind has its own rendering code)
     for name, (_files, ok, _exp) in INPUTS.items():
